@@ -23,7 +23,7 @@ def name_cases(r, quick):
     return cases
 
 
-def evolution_job(r, cluster, callee_cluster, kind, cv=None):
+def evolution_job(r, cluster, callee_cluster, kind, cv=None, target="?"):
     """cv: explicit version string of the callee (None: automatic version)"""
     caller = vprogs.new_fn("m1", "mem", [{"to": "m2", "form": "bare"}], explicit="1", cluster=cluster)
     callee = vprogs.new_fn("m2", "mem", [], cluster=callee_cluster, explicit=cv)
@@ -41,7 +41,7 @@ def evolution_job(r, cluster, callee_cluster, kind, cv=None):
     elif kind == "recluster":
         n = copy.deepcopy(callee)
         # to another named cluster, or between a named and the default cluster
-        n["cluster"] = r.choice([c for c in ("vy", "vz", None) if c != callee_cluster])
+        n["cluster"] = target if target != "?" else r.choice([c for c in ("vy", "vz", None) if c != callee_cluster])
         steps.append({"do": "set", "node": n})
         direction = "%s->%s" % ("default" if callee_cluster is None else "named", "default" if n["cluster"] is None else "named")
     steps += [{"do": "proc", "hashseed": "0"}, {"do": "call", "name": "m1"}, {"do": "probe", "name": "m1"}]
@@ -127,6 +127,10 @@ def run(prop, tier):
                     evjobs.append(evolution_job(r, cluster, cc, kind, cv=r.choice(["a::b", "1:2", "#x", "1.link", "x::y:z#w", "7"])))
                     if kind in ("edit", "remove") and cc == cluster:
                         evjobs.append(evolution_job_argfn(r, cluster, kind))
+                    if kind == "recluster":         # every direction of the move
+                        for tgt in ("vy", "vz", None):
+                            if tgt != cc:
+                                evjobs.append(evolution_job(r, cluster, cc, kind, target=tgt))
         evt = common.run_jobs("ver_worker.py", evjobs, wd, timeout=2400)
         for j, t in zip(evjobs, evt):
             evs = evolve_events(j, t)
